@@ -5,8 +5,10 @@ on such dicts, and the statement's laws as pure functions (expected merge result
 Nothing here looks at breezy; the model is what the property statement says.
 
 New / changed file contents are unique per entry (no two files share a line), so that content
-based rename detection on git trees has nothing to latch on to - with one deliberate exception:
-every file->symlink edit uses the same target "t" (two unrelated entries with identical content).
+based rename detection on git trees has nothing to latch on to - with deliberate exceptions:
+every file->symlink edit uses the same target "t" (two unrelated entries with identical content),
+and the edits split(f) (delete f, add two files with f's exact bytes and mode) and copy(f) (add one
+exact copy next to f; rename + copy arises as the two-edit script ren(f), copy(f)).
 """
 import itertools
 from collections import namedtuple
@@ -118,6 +120,18 @@ def edits(tree):
             t = put(kind="directory", content=None, exec=False)
             t[fid + b"-y"] = F(fid, "y", b"y of " + fid + b"\n")
             yield ("to_dir(%s)" % nm, "file->dir", t)
+        if e.kind == "file" and not fid.endswith((b"-c1", b"-c2", b"-cp")):
+            # exact copies (same bytes, same mode) - what content based rename / copy detection
+            # on git trees reports as one rename plus copies
+            if _free_name(tree, e.parent, e.name + "_c1") and _free_name(tree, e.parent, e.name + "_c2"):
+                t = {k: v for k, v in tree.items() if k != fid}
+                t[fid + b"-c1"] = e._replace(name=e.name + "_c1")
+                t[fid + b"-c2"] = e._replace(name=e.name + "_c2")
+                yield ("split(%s)" % nm, "split-file", t)
+            if _free_name(tree, e.parent, e.name + "_cp"):
+                t = dict(tree)
+                t[fid + b"-cp"] = e._replace(name=e.name + "_cp")
+                yield ("copy(%s)" % nm, "copy-file", t)
         if e.kind == "symlink":
             yield ("retarget(%s)" % nm, "retarget", put(content=e.content + "2"))
             yield ("to_file(%s)" % nm, "symlink->file", put(kind="file", content=b"was link " + fid + b"\n"))
